@@ -403,7 +403,9 @@ class History(object):
         _st['faults'] = None
         # at the end only (the probe would fill whatever memo the units
         # table keeps): what the table answers, against definitions
-        bad = libops.units_behaviour_problems(len(ops) % 2)
+        rs = self.spec.get('run_seed')
+        bad = libops.units_behaviour_problems(
+            (rs if isinstance(rs, int) else len(str(rs))) % 2)
         if bad:
             self.viol('state-altered', 'units-table',
                       'units-table-answers-against-definitions',
